@@ -589,6 +589,15 @@ func genC06(r *rand.Rand, t *Trace, thorough bool) {
 			t.Emit(runVecHistory(r, p, vecHistOpts{nops: 12 + r.Intn(30), trainFirst: true, ntrain: ntrain, allowReuse: true}, t), "c06.vector."+kindNames[kind])
 		}
 	}
+	// the HNSW kind: histories with id re-use after removal (also of every vertex at once), and the
+	// hybrid index over HNSW against the hybrid index over a flat index with updates
+	for it := 0; it < nv; it++ {
+		p := rndHNSWParams(r)
+		t.Emit(runHNSWHistory(r, p, hnswOpts{nops: 10 + r.Intn(35), allowReuse: true, adversary: it%2 == 0}, t), "c06.vector.hnsw")
+	}
+	for it := 0; it < 4+nv/5; it++ {
+		runHybridHNSWDiff(r, t)
+	}
 	for it := 0; it < 2*nv; it++ {
 		t.Emit(runBM25History(r, 10+r.Intn(35), true, t), "c06.bm25")
 	}
@@ -615,7 +624,7 @@ func runHybridHNSWDiff(r *rand.Rand, t *Trace) {
 	}
 	a, b := mk(true), mk(false)
 	style := r.Intn(2)
-	var live []uint32
+	var live, gone []uint32
 	next := uint32(2000001)
 	n, diffs := 0, 0
 	search := func(x comet.HybridSearchIndex, q []float32, txt string, ef int, withMeta bool) string {
@@ -675,11 +684,43 @@ func runHybridHNSWDiff(r *rand.Rand, t *Trace) {
 			next++
 		case x < 7 && len(live) > 0:
 			j := r.Intn(len(live))
-			ea, eb := a.Remove(live[j]), b.Remove(live[j])
-			if (ea == nil) != (eb == nil) {
-				diffs++
+			victims := []uint32{live[j]}
+			if r.Intn(6) == 0 {
+				victims = append([]uint32(nil), live...) // everything at once
 			}
-			live = append(live[:j], live[j+1:]...)
+			for _, id := range victims {
+				ea, eb := a.Remove(id), b.Remove(id)
+				if (ea == nil) != (eb == nil) {
+					diffs++
+				}
+				gone = append(gone, id)
+			}
+			if len(victims) == 1 {
+				live = append(live[:j], live[j+1:]...)
+			} else {
+				live = live[:0]
+			}
+			if r.Intn(2) == 0 && len(gone) > 0 {
+				// update = remove + add of the same id with new content (no flush in between)
+				id := gone[len(gone)-1]
+				gone = gone[:len(gone)-1]
+				v := histVec(r, dim, style)
+				if mz == 2 {
+					v[0] += 3
+				}
+				txt := bmText(r)
+				ea := a.AddWithID(id, cloneVec(v), txt, nil)
+				eb := b.AddWithID(id, cloneVec(v), txt, nil)
+				if (ea == nil) != (eb == nil) {
+					diffs++
+				}
+				if ea == nil {
+					live = append(live, id)
+				}
+				cn, cd := compare(a, b)
+				n += cn
+				diffs += cd
+			}
 		default:
 			cn, cd := compare(a, b)
 			n += cn
